@@ -22,6 +22,14 @@ var (
 
 // handleInjection processes a pre-populated VAA injected locally.
 func (p *Processor) handleInjection(ctx context.Context, v *vaa.VAA) {
+	if p.gs == nil {
+		// Without a guardian set the aggregation state would be created with a nil set,
+		// which the cleanup routine dereferences. Drop the injection like handleMessage does.
+		p.logger.Warn("dropping injected VAA since we haven't initialized our guardian set yet",
+			zap.String("message_id", v.MessageID()))
+		return
+	}
+
 	// Generate digest of the unsigned VAA.
 	digest := v.SigningMsg()
 
